@@ -392,6 +392,37 @@ func checkC20Round4(c *Ctx) {
 		})
 		r.Check(found, "C20.printf-clears-below", fnName(PF)+":ClearScreenBelow", p.Pos(PF.Pos()), "prints ClearScreenBelow", "Printf does not erase the rows below the input before printing: a message of several rows is written over old hint / completion rows, which stay on screen")
 	}
+	// ---- C20.prompt-print-recorded: a prompt printed on a fresh row is recorded, so that the redisplay does not climb back
+	r.Rule("C20.prompt-print-recorded", "K2", "the primary prompt is printed only through (*display.Engine).PrintPrimaryPrompt, which records it: Refresh moves the cursor up by the (old) cursor row unless it knows the prompt was just printed, so a message followed by a bare Prompt.PrimaryPrint and a Refresh — Shell.Printf from another goroutine — is overwritten whenever the cursor is not on the first row of the input", 1)
+	if PP := p.Func("(*ui.Prompt).PrimaryPrint"); PP != nil {
+		n := 0
+		for _, e := range p.callersOf(PP) {
+			F := e.Caller.Func
+			if F == nil || !inRepo(F) || e.Site == nil {
+				continue
+			}
+			n++
+			ok := fnName(F) == "(*display.Engine).PrintPrimaryPrompt"
+			if !ok {
+				// recorded all the same when the caller itself stores primaryPrinted = true on every path to its return
+				rec := func(x ssa.Instruction) bool {
+					st, is := isFieldStore(x, "display.Engine", "primaryPrinted")
+					if !is {
+						return false
+					}
+					b, isB := constBool(st.Val)
+					return isB && b
+				}
+				ok = pathAvoiding(F, e.Site, isReturn, rec) == nil
+			}
+			r.Check(ok, "C20.prompt-print-recorded", fnName(F)+":PrimaryPrint", p.IPos(e.Site), "printed through the display engine, which records it", fnName(F)+" prints the primary prompt directly: the display engine does not know, and the Refresh that follows first moves the cursor up by the cursor row of the previous display — with the cursor on a wrapped or second row, onto the message just printed, which is overwritten")
+		}
+		if n == 0 {
+			r.Unk("C20.prompt-print-recorded", "(*ui.Prompt).PrimaryPrint:callers", p.Pos(PP.Pos()), "nothing prints the primary prompt: anchor changed")
+		}
+	} else {
+		r.Unk("C20.prompt-print-recorded", "(*ui.Prompt).PrimaryPrint", "-", "anchor not found")
+	}
 	r.Rule("C20.wait-returns-keys", "K4", "WaitAvailableKeys returns to the main loop only with keys in hand: after a read that held nothing but a cursor report (a resize redisplay) it keeps waiting, whatever the reading state", 1)
 	W := p.Func("core.WaitAvailableKeys")
 	if W == nil {
@@ -893,5 +924,257 @@ func checkC16ArgDropped(c *Ctx) {
 	}
 	if n == 0 {
 		r.Bad("C16.unused-argument-dropped", fnName(UP)+":DropUnused", p.Pos(UP.Pos()), "the post-command hook does not drop unused arguments: \"M-3 M-d C-y\" kills one word and yanks it three times")
+	}
+}
+
+// ---- C09.search-down-restores (round 6): the searches come back to the typed line the way Walk does
+func checkC09SearchDown(c *Ctx) {
+	p, r := c.P, c.R
+	const rule = "C09.search-down-restores"
+	r.Rule(rule, "K5", "when a forward history search finds nothing newer and goes back to the line being typed, InsertMatch brings the typed text back with restoreLineBuffer, like Walk does — not with Undo, which skips the saved states equal to what the buffer shows: when the typed text equals the entry just shown (or an older state exists) undoing lands on an earlier text, or on nothing, and what the user was typing is lost", 1)
+	IM := p.Func("(*history.Sources).InsertMatch")
+	if IM == nil {
+		r.Unk(rule, "(*history.Sources).InsertMatch", "-", "anchor not found")
+		return
+	}
+	r.Fn(fnName(IM))
+	undo := callsTo(IM, false, "(*history.Sources).Undo")
+	for i, cl := range undo {
+		r.Bad(rule, siteKey(IM, "Undo", i), p.IPos(cl.(ssa.Instruction)), "InsertMatch restores the line being typed by undoing: Undo steps over every saved state equal to the text on screen, so `ls -la` typed, history-search-backward (shows the entry `ls -la`), history-search-forward leaves an empty line")
+	}
+	// every direct reset of the position to the typed line is preceded or followed by restoreLineBuffer before the return,
+	// except the early return taken when the search starts on the typed line itself (nothing was replaced)
+	n := 0
+	bf := blockFacts(IM)
+	eachInstr(IM, func(in ssa.Instruction) {
+		st, ok := isFieldStore(in, "history.Sources", "hpos")
+		if !ok {
+			return
+		}
+		if k, isK := constInt(st.Val); !isK || k != -1 {
+			return
+		}
+		// already on the typed line: the store is under `hpos <= -1`
+		onTyped := false
+		for fc := range factsAt(bf, in) {
+			rel, ok := relOf(fc.Cond, fc.Val)
+			if !ok {
+				continue
+			}
+			if isFieldLoad(rel.X, "history.Sources", "hpos") {
+				if k, isK := constInt(rel.Y); isK && ((rel.Op == token.LEQ && k == -1) || (rel.Op == token.LSS && k == 0) || (rel.Op == token.EQL && k == -1)) {
+					onTyped = true
+				}
+			}
+		}
+		n++
+		if onTyped {
+			r.OK(rule, siteKey(IM, "hpos=-1", n-1), p.IPos(in), "the search starts on the typed line: nothing to restore")
+			return
+		}
+		w := pathAvoiding(IM, in, isReturn, func(x ssa.Instruction) bool { return isCallTo(x, "(*history.Sources).restoreLineBuffer") })
+		r.Check(w == nil, rule, siteKey(IM, "hpos=-1", n-1), p.IPos(in), "restoreLineBuffer follows", "InsertMatch goes back to the position of the typed line without bringing its text back")
+	})
+	if len(undo) == 0 {
+		rs := callsTo(IM, false, "(*history.Sources).restoreLineBuffer")
+		r.Check(len(rs) > 0, rule, fnName(IM)+":restores", p.Pos(IM.Pos()), fmt.Sprintf("%d call(s) of restoreLineBuffer, no Undo", len(rs)), "InsertMatch never brings the typed line back: a forward search with nothing newer leaves a history entry in the buffer")
+	}
+}
+
+// ---- C16.ring-top-written (round 7): a kill always lands on top of the ring
+func checkC16RingTop(c *Ctx) {
+	p, r := c.P, c.R
+	const rule = "C16.ring-top-written"
+	r.Rule(rule, "K1", "writing to the kill ring (register 0 of (*editor.Buffers).writeNum) stores the killed text under key 0 on every path, whatever the number of entries already in the ring: the oldest entry is dropped, never the new one — otherwise the eleventh kill of a session leaves the line but yank gives back the tenth", 1)
+	WN := p.Func("(*editor.Buffers).writeNum")
+	if WN == nil || len(WN.Params) < 3 {
+		r.Unk(rule, "(*editor.Buffers).writeNum", "-", "anchor not found")
+		return
+	}
+	r.Fn(fnName(WN))
+	register, buf := WN.Params[1], WN.Params[2]
+	assume := func(cond ssa.Value) (bool, bool) {
+		// the ring path: register == 0, so `register > k` (k >= 0) and `register != 0` are false, `register == 0`, `register < 1` true
+		rel, ok := relOf(cond, true)
+		if !ok || rel.X != ssa.Value(register) {
+			return false, false
+		}
+		k, isK := constInt(rel.Y)
+		if !isK {
+			// `register > numRegisters-1`: the size of the ring is a package variable (10); with at least one register, false for register 0
+			fromSize := dependsOn(rel.Y, func(v ssa.Value) bool {
+				g, ok := v.(*ssa.Global)
+				return ok && g.Name() == "numRegisters"
+			})
+			if fromSize && (rel.Op == token.GTR || rel.Op == token.GEQ) {
+				return false, true
+			}
+			return false, false
+		}
+		switch rel.Op {
+		case token.GTR:
+			return 0 > k, true
+		case token.GEQ:
+			return 0 >= k, true
+		case token.LSS:
+			return 0 < k, true
+		case token.LEQ:
+			return 0 <= k, true
+		case token.EQL:
+			return k == 0, true
+		case token.NEQ:
+			return k != 0, true
+		}
+		return false, false
+	}
+	isTopStore := func(in ssa.Instruction) bool {
+		mu, ok := in.(*ssa.MapUpdate)
+		if !ok {
+			return false
+		}
+		if k, isK := constInt(mu.Key); !isK || k != 0 {
+			return false
+		}
+		return dependsOn(mu.Value, func(v ssa.Value) bool { return v == ssa.Value(buf) })
+	}
+	w := reachUnder(WN, assume, func(in ssa.Instruction) bool { return isReturn(in) && in.Block() != WN.Recover }, isTopStore)
+	pos := p.Pos(WN.Pos())
+	if w != nil {
+		pos = p.IPos(w)
+	}
+	r.Check(w == nil, rule, fnName(WN)+":register0", pos, "every path of the ring case stores the text under key 0", "writing to the kill ring can return without storing the killed text on top of it (a full ring): the text is removed from the line and lost, and the next yank inserts an older kill")
+}
+
+// ---- C09.no-save-after-growth (round 7): once the accepted line is written, positions counted from the newest entry are stale
+func checkC09NoSaveAfterGrowth(c *Ctx) {
+	p, r := c.P, c.R
+	const rule = "C09.no-save-after-growth"
+	r.Rule(rule, "K1", "after (*Sources).Accept has written the accepted line to the sources, the save that ends the accepting command is skipped (Sources.skip set on every path from the write to the return): the walk position counts from the newest entry, the write adds one, and a state saved then is kept under the next newer entry — which Walk shows instead of the stored text in every later call (C-p C-p Enter, then C-p C-p shows the accepted entry again in place of the newest but one)", 1)
+	AC := p.Func("(*history.Sources).Accept")
+	if AC == nil {
+		r.Unk(rule, "(*history.Sources).Accept", "-", "anchor not found")
+		return
+	}
+	r.Fn(fnName(AC))
+	isSkip := func(in ssa.Instruction) bool {
+		st, ok := isFieldStore(in, "history.Sources", "skip")
+		if !ok {
+			return false
+		}
+		b, isB := constBool(st.Val)
+		return isB && b
+	}
+	// also fine: the position goes back to the line being typed before the return
+	isReset := func(in ssa.Instruction) bool {
+		st, ok := isFieldStore(in, "history.Sources", "hpos")
+		if !ok {
+			return false
+		}
+		k, isK := constInt(st.Val)
+		return isK && k == -1
+	}
+	n := 0
+	for i, w := range callsTo(AC, false, "(*history.Sources).Write") {
+		n++
+		leak := pathAvoiding(AC, w.(ssa.Instruction), isReturn, func(x ssa.Instruction) bool { return isSkip(x) || isReset(x) || isCallTo(x, "(*history.Sources).SkipSave") })
+		r.Check(leak == nil, rule, siteKey(AC, "Write", i), p.IPos(w.(ssa.Instruction)), "the closing save is skipped after the write", "Accept writes the accepted line to the history sources and returns with the closing save of the command still armed: that save files the accepted text under the walk position, which now designates the next newer entry, and going up in later calls shows the accepted line twice and hides a stored entry")
+	}
+	if n == 0 {
+		r.Unk(rule, fnName(AC)+":Write", p.Pos(AC.Pos()), "Accept does not write the line: anchor changed")
+	}
+}
+
+// ---- C09.isearch-restores-when-nothing-inserted (round 7)
+func checkC09IsearchRestores(c *Ctx) {
+	p, r := c.P, c.R
+	const rule = "C09.isearch-restores-when-nothing-inserted"
+	r.Rule(rule, "K1", "an incremental history search that replaces the line puts in the buffer either a matching entry (Select) or the text the user was typing (Line.Set from isearchStartBuf), on every path of updateIncrementalSearch: the line was emptied to receive the previous match, so a path that does neither — a search text erased back to nothing — leaves an empty buffer in place of the typed text", 1)
+	U := p.Func("(*completion.Engine).updateIncrementalSearch")
+	if U == nil {
+		r.Unk(rule, "(*completion.Engine).updateIncrementalSearch", "-", "anchor not found")
+		return
+	}
+	r.Fn(fnName(U))
+	assume := func(cond ssa.Value) (bool, bool) {
+		if isFieldLoad(cond, "completion.Engine", "isearchReplaceLine") {
+			return true, true
+		}
+		return false, false
+	}
+	restores := func(in ssa.Instruction) bool {
+		if isCallTo(in, "(*completion.Engine).Select") {
+			return true
+		}
+		if !isCallTo(in, "(*core.Line).Set") {
+			return false
+		}
+		args := in.(ssa.CallInstruction).Common().Args
+		if len(args) < 2 {
+			return false
+		}
+		return dependsOn(args[1], func(v ssa.Value) bool { return isFieldLoad(v, "completion.Engine", "isearchStartBuf") })
+	}
+	w := reachUnder(U, assume, func(in ssa.Instruction) bool { return isReturn(in) && in.Block() != U.Recover }, restores)
+	pos := p.Pos(U.Pos())
+	if w != nil {
+		pos = p.IPos(w)
+	}
+	r.Check(w == nil, rule, fnName(U)+":replace-line", pos, "a candidate is selected or the typed text restored on every path", "when the search replaces the line, a path through updateIncrementalSearch neither selects a matching entry nor restores the text being typed: the buffer stays as the last update left it (emptied), e.g. after the search text is erased")
+}
+
+// ---- C20.readkey-skips-report-only-read (round 7): sibling of C20.wait-returns-keys
+func checkC20ReadKeyReport(c *Ctx) {
+	p, r := c.P, c.R
+	const rule = "C20.readkey-skips-report-only-read"
+	r.Rule(rule, "K4", "(*Keys).ReadKey — a command reading its argument key from the terminal — gives up (abort) after its own read only when the read failed: a read that returned no key without an error held nothing but a cursor position report, asked by a resize or an application print redisplaying meanwhile, and, like WaitAvailableKeys, ReadKey reads again — otherwise `d f <resize> b` aborts the command and the next key is run as a command of its own", 1)
+	RK := p.Func("(*core.Keys).ReadKey")
+	if RK == nil {
+		r.Unk(rule, "(*core.Keys).ReadKey", "-", "anchor not found")
+		return
+	}
+	r.Fn(fnName(RK))
+	bf := blockFacts(RK)
+	n := 0
+	for i, cl := range callsTo(RK, false, "(*core.Keys).readInputFiltered") {
+		read := cl.(*ssa.Call)
+		var buf, errv ssa.Value
+		for _, ref := range referrersOf(read) {
+			if ex, ok := ref.(*ssa.Extract); ok {
+				if ex.Index == 0 {
+					buf = ex
+				} else if ex.Index == 1 {
+					errv = ex
+				}
+			}
+		}
+		// abort returns (second result true) reachable right after this read without a key taken from it
+		eachInstr(RK, func(in ssa.Instruction) {
+			ret, ok := in.(*ssa.Return)
+			if !ok || len(ret.Results) != 2 || in.Block() == RK.Recover {
+				return
+			}
+			// the results are spilled (deferred cleanup): an abort return is one whose second result can only be true
+			vals := mayValues(ret.Results[1])
+			if len(vals) == 0 {
+				return
+			}
+			for _, v := range vals {
+				if b, isB := constBool(v); !isB || !b {
+					return
+				}
+			}
+			if !instrDominates(read, in) {
+				return
+			}
+			n++
+			// on every edge into the return the error is known non-nil: the empty-read case does not lead here
+			failed := func(facts map[Fact]bool) bool { return errv != nil && knownNonNil(facts, errv) }
+			good := onEveryEdgeInto(bf, in.Block(), failed, 0)
+			_ = buf
+			r.Check(good, rule, siteKey(RK, "abort-after-read", i), p.IPos(in), "aborts only when the read failed", "ReadKey aborts when its read returns no key and no error — a read that only held the terminal's answer to a cursor position query (resize, Printf): the pending command (vi f / r / t, quoted-insert …) is dropped and its argument key is dispatched as a command")
+		})
+	}
+	if n == 0 {
+		r.OK(rule, fnName(RK)+":no-abort-after-read", p.Pos(RK.Pos()), "ReadKey never aborts after its own terminal read")
 	}
 }
